@@ -1564,4 +1564,244 @@ theorem exWriteQuery_wired (env : Env) (isInsert : Bool) (tgt : List String) (d 
     exact this
 
 
+/-! ### reading the result -/
+
+theorem kind_lineage_iff (u v : Node) : kind u v = .lineage ↔ u.isCol = true := by
+  unfold kind
+  by_cases hu : u.isCol = true
+  · simp [hu]
+  · by_cases hv : v.isCol = true <;> simp [hu, hv]
+
+theorem kind_hasColumn_iff (u v : Node) : kind u v = .hasColumn ↔ u.isCol = false ∧ v.isCol = true := by
+  unfold kind
+  by_cases hu : u.isCol = true
+  · simp [hu]
+  · by_cases hv : v.isCol = true <;> simp [hu, hv]
+
+theorem kind_hasAlias_iff (u v : Node) : kind u v = .hasAlias ↔ u.isCol = false ∧ v.isCol = false := by
+  unfold kind
+  by_cases hu : u.isCol = true
+  · simp [hu]
+  · by_cases hv : v.isCol = true <;> simp [hu, hv]
+
+theorem isCol_of_colParent (v : Node) (d : DS) (h : colParent v = some d) : v.isCol = true := by
+  cases v <;> simp_all [colParent, Node.isCol]
+
+/-- every edge of the statement holder, by type -/
+structure EdgesExact (g : LGraph) (K : List (Node × Node)) (tabs : List DObj) : Prop where
+  lineage : ∀ u v, ((u, v) ∈ g.edges ∧ g.ety u v = some .lineage) ↔ (u, v) ∈ K
+  hasColumn : ∀ u v, ((u, v) ∈ g.edges ∧ g.ety u v = some .hasColumn) ↔ (u, v) ∈ specOwners K
+  hasAlias : ∀ u v, ((u, v) ∈ g.edges ∧ g.ety u v = some .hasAlias) ↔ aliasPair tabs u v
+  noRename : ∀ u v, (u, v) ∈ g.edges → g.ety u v ≠ some .rename
+
+theorem edgesExact_of_wired {g1 g2 : LGraph} {K : List (Node × Node)} {tabs : List DObj} {T : DS}
+    (hb : ReadBase g1 tabs T) (hw : Wired g1 g2 K) (hK : ∀ p ∈ K, p.1.isCol = true)
+    (hA : ∀ u v, (u, v) ∈ g1.edges ↔ aliasPair tabs u v) : EdgesExact g2 K tabs := by
+  refine ⟨?_, ?_, ?_, ?_⟩
+  · intro u v
+    constructor
+    · rintro ⟨he, hy⟩
+      rw [hw.ty u v he] at hy
+      exact (hw.lin u v ((kind_lineage_iff u v).mp (Option.some.inj hy))).mp he
+    · intro hk
+      have hu := hK _ hk
+      have he := (hw.lin u v hu).mpr hk
+      exact ⟨he, by rw [hw.ty u v he, (kind_lineage_iff u v).mpr hu]⟩
+  · intro u v
+    constructor
+    · rintro ⟨he, hy⟩
+      rw [hw.ty u v he] at hy
+      obtain ⟨hu, hv⟩ := (kind_hasColumn_iff u v).mp (Option.some.inj hy)
+      exact (hw.own u v hu hv).mp he
+    · intro hk
+      obtain ⟨p, _, ⟨d, hd, hx⟩ | ⟨d, hd, hx⟩⟩ := (mem_specOwners K (u, v)).mp hk
+      · have hu : u.isCol = false := by rw [show u = .ds d from congrArg Prod.fst hx]; rfl
+        have hv : v.isCol = true := by rw [show v = p.1 from congrArg Prod.snd hx]; exact isCol_of_colParent _ _ hd
+        have he := (hw.own u v hu hv).mpr hk
+        exact ⟨he, by rw [hw.ty u v he, (kind_hasColumn_iff u v).mpr ⟨hu, hv⟩]⟩
+      · have hu : u.isCol = false := by rw [show u = .ds d from congrArg Prod.fst hx]; rfl
+        have hv : v.isCol = true := by rw [show v = p.2 from congrArg Prod.snd hx]; exact isCol_of_colParent _ _ hd
+        have he := (hw.own u v hu hv).mpr hk
+        exact ⟨he, by rw [hw.ty u v he, (kind_hasColumn_iff u v).mpr ⟨hu, hv⟩]⟩
+  · intro u v
+    constructor
+    · rintro ⟨he, hy⟩
+      rw [hw.ty u v he] at hy
+      obtain ⟨hu, hv⟩ := (kind_hasAlias_iff u v).mp (Option.some.inj hy)
+      exact (hA u v).mp ((hw.frame.edges u v hu hv).1.mp he)
+    · intro hp
+      have he1 := (hA u v).mpr hp
+      obtain ⟨⟨d, a, hd, ha⟩, hy⟩ := hb.edges u v he1
+      have hu : u.isCol = false := by rw [hd]; rfl
+      have hv : v.isCol = false := by rw [ha]; rfl
+      exact ⟨(hw.frame.edges u v hu hv).1.mpr he1, by rw [(hw.frame.edges u v hu hv).2, hy]⟩
+  · intro u v he hy
+    rw [hw.ty u v he] at hy
+    have := Option.some.inj hy
+    unfold kind at this
+    split at this
+    · cases this
+    · split at this <;> cases this
+
+theorem compose_g0_edges (t : DObj) (h : LGraph) (e : Node × Node) : e ∈ ((g0 t).compose h).edges ↔ e ∈ h.edges := by
+  rw [mem_edges_compose, g0_edges]; simp
+
+theorem compose_g0_ety (t : DObj) (h : LGraph) (u v : Node) : ((g0 t).compose h).ety u v = h.ety u v := by
+  rw [Graph.ety_compose, Graph.ety_of_not_mem (g0 t) u v (by rw [g0_edges]; simp)]
+  cases h.ety u v <;> rfl
+
+theorem edgesExact_compose_g0 (t : DObj) (h : LGraph) (K : List (Node × Node)) (tabs : List DObj) (hx : EdgesExact h K tabs) :
+    EdgesExact ((g0 t).compose h) K tabs := by
+  refine ⟨?_, ?_, ?_, ?_⟩
+  · intro u v; rw [compose_g0_edges, compose_g0_ety]; exact hx.lineage u v
+  · intro u v; rw [compose_g0_edges, compose_g0_ety]; exact hx.hasColumn u v
+  · intro u v; rw [compose_g0_edges, compose_g0_ety]; exact hx.hasAlias u v
+  · intro u v; rw [compose_g0_edges, compose_g0_ety]; exact hx.noRename u v
+
+theorem specPairs_isCol (env : Env) (tgt : List String) (its : List Item) (frm : List FromExpr) :
+    ∀ p ∈ specPairs env tgt its frm, p.1.isCol = true ∧ p.2.isCol = true := by
+  intro p hp
+  unfold specPairs at hp
+  obtain ⟨it, _, hit⟩ := List.mem_flatMap.mp hp
+  obtain ⟨e, a, k⟩ := it
+  simp only [itemPairs, List.mem_map] at hit
+  obtain ⟨r, _, rfl⟩ := hit
+  exact ⟨rfl, rfl⟩
+
+/-- **end to end, query level**: `CreateInsertExtractor.extract` on the fragment succeeds, and every edge of its holder is
+    known: LINEAGE = the specified pairs, HAS_COLUMN = their owners, HAS_ALIAS = the table references, nothing else -/
+theorem exWriteQuery_exact (env : Env) (isInsert : Bool) (tgt : List String) (d : Bool) (its : List Item)
+    (frm : List FromExpr) (wh : Option Expr) (grp : List Expr) (hav : Option Expr) (hp : env.prov.truthy = false)
+    (hfrag : fragSelect env tgt (.select d its frm wh grp hav) = true) :
+    ∃ g, exWriteQuery env isInsert tgt none (.select d its frm wh grp hav) = .ok g ∧
+      EdgesExact g (specPairs env tgt its frm) (fromTabs env frm) := by
+  obtain ⟨g2, hg, hb, hw⟩ := exWriteQuery_wired env isInsert tgt d its frm wh grp hav hp hfrag
+  refine ⟨_, hg, edgesExact_compose_g0 _ _ _ _ (edgesExact_of_wired hb hw (fun p hp' => (specPairs_isCol env tgt its frm p hp').1) ?_)⟩
+  intro u v
+  rw [mem_edges_foldl_addReadO _ (fromTabs_isTabRef env frm), g0_edges]
+  simp
+
+
+/-! ### statement level -/
+
+theorem disp_insert : dispatch "insert_statement" = some "CreateInsertExtractor" := by decide
+theorem disp_create_table : dispatch "create_table_statement" = some "CreateInsertExtractor" := by decide
+theorem disp_create_view : dispatch "create_view_statement" = some "CreateInsertExtractor" := by decide
+
+/-- **end to end, statement level**: on the fragment `analyze` succeeds (silent or not) and every edge of the statement holder
+    is known -/
+theorem analyze_exact (env : Env) (silent : Bool) (s : Stmt) (hp : env.prov.truthy = false) (hs : fragStmt env s = true) :
+    ∃ g, analyze env silent s = .ok g ∧
+      EdgesExact g (specPairs env (stmtTarget s) (stmtItems s) (stmtFrom s)) (fromTabs env (stmtFrom s)) := by
+  cases s with
+  | insert kd tk tgt cols q br =>
+    cases cols with
+    | some _ => simp [fragStmt] at hs
+    | none =>
+      cases q with
+      | setop _ _ => simp [fragStmt, fragSelect] at hs
+      | withq _ _ => simp [fragStmt, fragSelect] at hs
+      | select d its frm wh grp hav =>
+        have := exWriteQuery_exact env true tgt d its frm wh grp hav hp (by simpa [fragStmt] using hs)
+        unfold analyze
+        have hd : dispatch (stmtType (.insert kd tk tgt none (.select d its frm wh grp hav) br)) = some "CreateInsertExtractor" :=
+          disp_insert
+        rw [hd]
+        exact this
+  | ctas tgt orr ine q br =>
+    cases q with
+    | setop _ _ => simp [fragStmt, fragSelect] at hs
+    | withq _ _ => simp [fragStmt, fragSelect] at hs
+    | select d its frm wh grp hav =>
+      have := exWriteQuery_exact env false tgt d its frm wh grp hav hp (by simpa [fragStmt] using hs)
+      unfold analyze
+      have hd : dispatch (stmtType (.ctas tgt orr ine (.select d its frm wh grp hav) br)) = some "CreateInsertExtractor" :=
+        disp_create_table
+      rw [hd]
+      exact this
+  | createView tgt orr cols q =>
+    cases cols with
+    | some _ => simp [fragStmt] at hs
+    | none =>
+      cases q with
+      | setop _ _ => simp [fragStmt, fragSelect] at hs
+      | withq _ _ => simp [fragStmt, fragSelect] at hs
+      | select d its frm wh grp hav =>
+        have := exWriteQuery_exact env false tgt d its frm wh grp hav hp (by simpa [fragStmt] using hs)
+        unfold analyze
+        have hd : dispatch (stmtType (.createView tgt orr none (.select d its frm wh grp hav))) = some "CreateInsertExtractor" :=
+          disp_create_view
+        rw [hd]
+        exact this
+  | query _ _ => simp [fragStmt] at hs
+  | insertValues _ _ _ => simp [fragStmt] at hs
+  | createTable _ _ _ => simp [fragStmt] at hs
+  | createTableLike _ _ => simp [fragStmt] at hs
+  | update _ _ _ _ _ => simp [fragStmt] at hs
+  | merge _ _ _ _ _ _ => simp [fragStmt] at hs
+  | copy _ _ => simp [fragStmt] at hs
+  | drop _ _ _ => simp [fragStmt] at hs
+  | alterRename _ _ => simp [fragStmt] at hs
+  | renameTable _ => simp [fragStmt] at hs
+  | noop _ _ => simp [fragStmt] at hs
+  | unsupported _ => simp [fragStmt] at hs
+
+/-! ### reading the specification -/
+
+theorem mem_specPairs (env : Env) (tgt : List String) (its : List Item) (frm : List FromExpr) (u v : Node) :
+    (u, v) ∈ specPairs env tgt its frm ↔
+      ∃ e a k, Item.mk e a k ∈ its ∧ ∃ r ∈ refs e,
+        u = (srcCol env.importDefault (fromTabs env frm) (normRef r)).key ∧ v = (tgtCol env tgt (.mk e a k)).key := by
+  unfold specPairs
+  rw [List.mem_flatMap]
+  constructor
+  · rintro ⟨it, hit, h⟩
+    obtain ⟨e, a, k⟩ := it
+    simp only [itemPairs, List.mem_map, Prod.mk.injEq] at h
+    obtain ⟨r, hr, h1, h2⟩ := h
+    exact ⟨e, a, k, hit, r, hr, h1.symm, h2.symm⟩
+  · rintro ⟨e, a, k, hit, r, hr, h1, h2⟩
+    refine ⟨_, hit, ?_⟩
+    simp only [itemPairs, List.mem_map, Prod.mk.injEq]
+    exact ⟨r, hr, h1.symm, h2.symm⟩
+
+/-- the target column of an item: `<written table>.<name by the naming rule>`, owned by the written table -/
+theorem tgtCol_key (env : Env) (tgt : List String) (it : Item) :
+    (tgtCol env tgt it).key =
+      .col ((mkTable env tgt none).printed ++ "." ++ (colSpecOf env it).raw) (some (mkTable env tgt none).d) := rfl
+
+/-- a qualified reference `q.c`: column `c` of the relation `q` denotes -/
+theorem srcCol_key_qualified (imp : String) (tabs : List DObj) (c q : String) :
+    (srcCol imp tabs (c, some q)).key =
+      .col ((resolveQ imp tabs q).2 ++ "." ++ c) (some (resolveQ imp tabs q).1) := by
+  have h := resolveQ_isTable imp tabs q
+  simp only [srcCol, Column.key, Column.mk1, Column.printed, Column.parent?]
+  cases hq : resolveQ imp tabs q with
+  | mk d pr =>
+    rw [hq] at h
+    cases d with
+    | table _ _ => rfl
+    | path _ => cases h
+    | subq _ => cases h
+
+/-- an unqualified reference `c` over a single table reference `t`: column `c` of `t` -/
+theorem srcCol_key_unqualified (imp : String) (t : DObj) (ht : t.d.isTable = true) (c : String) :
+    (srcCol imp [t] (c, none)).key = .col (t.printed ++ "." ++ c) (some t.d) := by
+  simp only [srcCol, Column.key, Column.mk1, Column.printed, Column.parent?, List.head?_cons, Option.map_some]
+  obtain ⟨d, al⟩ := t
+  cases d with
+  | table _ _ => rfl
+  | path _ => cases ht
+  | subq _ => cases ht
+
+/-- a written alias denotes its table (whatever other tables are called) -/
+theorem resolveQ_alias (imp : String) (tabs : List DObj) (hU : aliasesUnambiguous tabs = true) (o : DObj) (ho : o ∈ tabs)
+    (a : String) (v : DS × String) (he : explEntry o = some (a, v)) : resolveQ imp tabs a = v := by
+  have hm : (a, v) ∈ tabs.filterMap explEntry := List.mem_filterMap.mpr ⟨o, ho, he⟩
+  obtain ⟨v', hv'⟩ := amGet_isSome_of_mem _ _ _ hm
+  have := unambiguous_fun tabs hU a v' v (amGet_mem _ _ _ hv') hm
+  unfold resolveQ
+  rw [specAliasMap_split, amGet_append, hv', this]
+
+
 end SqlLineage.ColumnsExact
